@@ -144,7 +144,7 @@ class Ctx:
             return False
         key = cond.get_id()
         if key in self.known:
-            return self.known[key]
+            return self.known[key][0]
         if time.time() > self.deadline:
             raise PathEnd("path budget exhausted")
         i = len(self.decisions)
@@ -189,8 +189,9 @@ class Ctx:
             self.solver.add(lit)
         else:
             self.pc_data += 1
-        self.known[key] = v
-        self.known[z3.simplify(z3.Not(cond)).get_id()] = not v
+        ncond = z3.simplify(z3.Not(cond))
+        self.known[key] = (v, cond)  # the term is kept alive: z3 recycles the ids of collected terms
+        self.known[ncond.get_id()] = (not v, ncond)
         return v
 
     def _feasible(self, c):
@@ -1024,16 +1025,15 @@ def model_values(solver):
 
 
 def _fpval(v):
+    """Python repr of a z3 Float64 numeral (via its IEEE bit pattern)."""
+    import struct
+
+    bv = z3.simplify(z3.fpToIEEEBV(v))
+    if z3.is_bv_value(bv):
+        return repr(struct.unpack(">d", bv.as_long().to_bytes(8, "big"))[0])
     if v.isNaN():
         return "nan"
-    if v.isInf():
-        return "-inf" if v.isNegative() else "inf"
-    if v.isZero():
-        return "-0.0" if v.isNegative() else "0.0"
-    try:
-        return repr(float(eval(str(v).replace("*(2**", "*(2.0**"))))
-    except Exception:
-        return str(v)
+    return str(v)
 
 
 def prove(label, claim, info=None):
@@ -1061,6 +1061,37 @@ def prove(label, claim, info=None):
     if r == "sat":
         raise PathViolation(_viol(label, s, info))
     raise PathViolation(_viol(label, None, info, unknown=True))
+
+
+def prove_batch(items, info=None):
+    """items: [(label, claim)] -- all claims must hold on this path; one query for the disjunction of the negations."""
+    exprs = []
+    for label, claim in items:
+        CTX.stats["obligations"] += 1
+        if isinstance(claim, bool):
+            if not claim:
+                raise PathViolation(_viol(label, None, info, concrete=True))
+            continue
+        e = claim.e if isinstance(claim, SymBool) else claim
+        e = z3.simplify(e)
+        if z3.is_true(e):
+            continue
+        exprs.append((label, e))
+    if not exprs:
+        CTX.stats["queries"] += 1
+        CTX.stats["unsat"] += 1
+        CTX.stats["stage1"] += 1
+        return True
+    tmo = CTX.opts.get("query_timeout_ms", 30000)
+    r, s = _check([z3.Or([z3.Not(e) for _, e in exprs])] + CTX.pc + CTX.defs, tmo)
+    if r == "unsat":
+        CTX.stats["stage3"] += 1
+        return True
+    if r == "sat":
+        m = s.model()
+        lab = next((l for l, e in exprs if z3.is_false(m.eval(e, model_completion=True))), exprs[0][0])
+        raise PathViolation(_viol(lab, s, info))
+    raise PathViolation(_viol(exprs[0][0] + " (batch)", None, info, unknown=True))
 
 
 def prove_equal(label, a, b, info=None):
